@@ -71,6 +71,8 @@ func (f *FeedReader) Read(b []byte, a interceptor.Attributes) (int, interceptor.
 type RTCPSink struct {
 	Pkts []rtcp.Packet
 	Err  error
+	// Refused collects what was offered while Err was set
+	Refused []rtcp.Packet
 }
 
 // Write implements interceptor.RTCPWriter.
@@ -78,6 +80,7 @@ type RTCPSink struct {
 //go:norace
 func (s *RTCPSink) Write(pkts []rtcp.Packet, _ interceptor.Attributes) (int, error) {
 	if s.Err != nil {
+		s.Refused = append(s.Refused, pkts...)
 		return 0, s.Err
 	}
 	s.Pkts = append(s.Pkts, pkts...)
